@@ -314,6 +314,119 @@ def check_debugger(rec, idx, of):
     rec.sample({"part": "debugger", "evalex": True, "pin_on": True, "cmd": "eval", "secret": "right", "host": "localhost.evil.com", "cookie": "valid", "frame": "known"})
 
 
+def check_debugger_histories_and_schedules(rec, rng):
+    """(2b) History: the PIN is changed while the process runs - a cookie for the old PIN opens nothing any more.
+    Schedule: requests from a trusted and from an untrusted Host are in flight on two threads of one debugger
+    (yields injected at the lines of DebuggedApplication's methods) - the untrusted one never evaluates."""
+    import sys
+    import threading
+    import time as _time
+
+    import werkzeug.debug as dbg
+    from werkzeug.debug import DebuggedApplication, hash_pin
+    from werkzeug.test import create_environ, run_wsgi_app
+
+    ft = FakeTime()
+    dbg.time = ft
+
+    def request(app, spy, host, cookie, cmd="1+1"):
+        env = create_environ("/", query_string={"__debugger__": "yes", "cmd": cmd, "frm": "12345", "s": app.secret})
+        env["HTTP_HOST"] = host
+        if cookie:
+            env["HTTP_COOKIE"] = f"{app.pin_cookie_name}={cookie}"
+        it, status, hd = run_wsgi_app(app, env)
+        return status, b"".join(it)
+
+    # ---- the PIN changes
+    app = DebuggedApplication(inner, evalex=True, pin_security=True)
+    app.pin_cookie_name  # noqa: B018  (computing the cookie name also generates the PIN: do it before choosing ours)
+    app.pin = "111-222-333"
+    spy = SpyFrame()
+    app.frames[12345] = spy
+    old_cookie = f"{int(ft.now)}|{hash_pin('111-222-333')}"
+    rec.case()
+    rec.nontrivial(("pin-changed",))
+    request(app, spy, "localhost", old_cookie)
+    if not spy.calls:
+        rec.violation("C20/eval-not-run-although-gate-open", "valid cookie, trusted host, before the PIN change", {"part": "pin-changed"}, monitor="spy-frame")
+    spy.calls.clear()
+    app.pin = "999-888-777"
+    request(app, spy, "localhost", old_cookie)
+    rec.observe("pin_changed_histories")
+    if spy.calls:
+        rec.violation("C20/EVAL-GATE-BYPASS:pin-cookie", "the spy frame's eval ran with a cookie for the PIN that was replaced (app.pin assigned a new value)", {"part": "pin-changed"}, monitor="spy-frame")
+    spy.calls.clear()
+    request(app, spy, "localhost", f"{int(ft.now)}|{hash_pin('999-888-777')}")
+    if not spy.calls:
+        rec.violation("C20/eval-not-run-although-gate-open", "cookie for the new PIN refused", {"part": "pin-changed"}, monitor="spy-frame")
+    # ---- trusted and untrusted requests in flight together
+    mon = getattr(sys, "monitoring", None)
+    TOOL = 5
+    codes, inj = [], [0]
+    if mon is not None:
+        try:
+            mon.use_tool_id(TOOL, "verif-yield-c20")
+            codes = [f.__code__ for f in vars(DebuggedApplication).values() if hasattr(f, "__code__")]
+
+            def on_line(code, line):
+                inj[0] += 1
+                _time.sleep(0)
+
+            mon.register_callback(TOOL, mon.events.LINE, on_line)
+            for c in codes:
+                mon.set_local_events(TOOL, c, mon.events.LINE)
+        except ValueError:
+            mon = None
+    app = DebuggedApplication(inner, evalex=True, pin_security=True)
+    app.pin_cookie_name  # noqa: B018
+    app.pin = "111-222-333"
+
+    class TaggedSpy(SpyFrame):
+        def eval(self, code):
+            self.calls.append(code)
+            return "EVAL-RESULT"
+
+    spy = TaggedSpy()
+    app.frames[12345] = spy
+    good = f"{int(ft.now)}|{hash_pin('111-222-333')}"
+    answers = {"evil": [], "good": 0}
+    old_si = sys.getswitchinterval()
+    sys.setswitchinterval(1e-5)
+    try:
+        def evil():
+            for i in range(150):
+                st, body = request(app, spy, "evil.example", good, cmd="'from-evil-host'")
+                if st.startswith("200") and b"EVAL-RESULT" in body:
+                    answers["evil"].append(i)
+
+        def trusted():
+            for i in range(150):
+                st, body = request(app, spy, "localhost", good, cmd="'from-localhost'")
+                answers["good"] += st.startswith("200")
+
+        ths = [threading.Thread(target=evil), threading.Thread(target=trusted), threading.Thread(target=trusted)]
+        for t_ in ths:
+            t_.start()
+        for t_ in ths:
+            t_.join(300)
+    finally:
+        sys.setswitchinterval(old_si)
+        if mon is not None:
+            for c in codes:
+                mon.set_local_events(TOOL, c, 0)
+            mon.free_tool_id(TOOL)
+    rec.case()
+    rec.nontrivial(("overlapping-hosts",))
+    rec.observe("overlapping_requests", 450)
+    rec.observe("overlapping_injected_yields", inj[0])
+    ran_for_evil = [c for c in spy.calls if "from-evil-host" in c]
+    if ran_for_evil or answers["evil"]:
+        rec.violation("C20/EVAL-GATE-BYPASS:trusted-host", f"code sent with Host evil.example was evaluated {len(ran_for_evil)} times while requests from localhost were in flight on other threads",
+                      {"part": "overlapping-hosts"}, monitor="spy-frame")
+    if not answers["good"]:
+        rec.violation("C20/eval-not-run-although-gate-open", "no request from localhost was answered in the overlap run", {"part": "overlapping-hosts"}, monitor="spy-frame")
+
+
 # ---------------------------------------------------------------------------------------------
 # (3) PIN histories
 
@@ -491,6 +604,8 @@ def run(shard, rec, rng):
     idx, of = shard["index"], shard["of"]
     check_hosts(rec, rng, idx, of)
     check_debugger(rec, idx, of)
+    if idx % 8 == 3:
+        check_debugger_histories_and_schedules(rec, rng)
     check_pin_histories(rec, idx, min(of, 27), cfg["hist_len"]) if idx < 27 else None
     reach.finish()
 
